@@ -238,6 +238,13 @@ def lossless_variants(rnd, df):
     d = df.copy(); d["weiblich"] = d["weiblich"].astype(float); out.append(("bool input as 0.0/1.0 float", d))
     d = df.copy(); d["bruttolohn_m"] = (d["bruttolohn_m"] * 0 + d["bruttolohn_m"].round()).astype(int); out.append(("float input as int", d))
     d = df.copy(); d["hh_id"] = d["hh_id"].astype(float); out.append(("hh_id as integral float", d))
+    # narrower storage of the SAME kind (no conversion is needed, none is announced; the values must arrive unchanged)
+    d = df.copy(); d["alter"] = d["alter"].astype("int8"); d["geburtsjahr"] = d["geburtsjahr"].astype("int16")
+    out.append(("same kind, narrower: alter as int8, geburtsjahr as int16", d))
+    d = df.copy(); d["p_id"] = d["p_id"].astype("int32"); d["hh_id"] = d["hh_id"].astype("int32")
+    out.append(("same kind, narrower: p_id and hh_id as int32", d))
+    d = df.copy(); d["alter"] = d["alter"].astype("Int64"); out.append(("same kind, nullable: alter as Int64 without missing values", d))
+    d = df.copy(); d["kind"] = d["kind"].astype("uint8"); out.append(("bool input as uint8 0/1", d))
     return out
 
 
@@ -293,7 +300,7 @@ def system_search(run, rnd, dates, n_pops):
                         run.hit({"kind": "lossless-variant-rejected", "variant": label},
                                 f"'{label}' is rejected at {date}: {type(e).__name__}: {str(e)[:150]}", {"date": date, "variant": label})
                         continue
-                if not any("have been converted" in str(x.message) for x in w):
+                if not label.startswith("same kind") and not any("have been converted" in str(x.message) for x in w):
                     run.hit({"kind": "conversion-not-announced", "variant": label},
                             f"'{label}' at {date}: the automatic conversion raised no warning", {"date": date, "variant": label})
                 bad_cols = meta.diff_columns(base, res)
